@@ -385,6 +385,20 @@ example (w : Bytes) (hw : w.length = 300) (validL3 : Bytes → Bool) (hv : valid
     (by simp)).1
   simpa [congestionStep] using this
 
+/-- **C10, "once" per destination thread.**  A delivered packet is queued at most once to any
+    forwarding thread: an Interest and a Data with a PIT token go to one thread, a token-less Data to
+    each prefix thread once (`hp` is the duplicate-free list of the threads of its prefixes). -/
+theorem dispatch_once_per_thread (n : Nat) (wire token : Bytes) (hn : Nat) (hp : List Nat)
+    (h : hp.Nodup) : (dispatchThreads n wire token hn hp).Nodup := by
+  unfold dispatchThreads
+  split
+  · simp
+  · split
+    · split <;> simp
+    · exact h
+
+example : dispatchThreads 4 [6, 2, 7, 0] [] 1 [0, 2] = [0, 2] := by decide
+
 /-- **C10, the sequence ranges of one sender's packets are disjoint.**  Packets sent one after the
     other by one link service (any start value of the 64-bit counter, wrap-around included) get
     pairwise different base sequence numbers as long as fewer than 2^64 fragment frames are
